@@ -587,3 +587,48 @@ def rule_count_product(ctx, dirs=("mfhdf/hrepack/", "mfhdf/hdiff/", "mfhdf/hdp/"
                 ctx.holds("COUNTPROD", key, f.where(node_line(lp)), "`%s` is the product of the edges `%s` handed to %s" % (N, ", ".join(sorted(names)), "/".join(sorted({c for c, _b in edges}))), nontrivial=True)
     ctx.floor("COUNTPROD", 2, n, "(strip-mined dataset loops)")
     return n
+
+
+# ---------------------------------------------------------------------------------------------------------------------
+def rule_old_length_before_overwrite(ctx):
+    """OLDLEN (C07): renaming a Vdata (name, class) may make its stored header longer; VSdetach then has to write the header to a
+    new, larger element instead of over the old one, and it learns that from `new_h_sz`.  The routines decide by comparing the
+    length of the *current* string with the new one, so the current length must be measured before the new string is copied over
+    it.  Measured afterwards, the two lengths are equal, new_h_sz stays clear, and VSdetach fails to write the longer header:
+    everything appended in that attachment is lost with it."""
+    prog = ctx.prog
+    n = 0
+    COPY = {"strcpy", "strncpy", "HIstrncpy", "memcpy", "strcat"}
+    for f in prog.lib_funcs():
+        if not f.rel.endswith(("hdf/src/vg.c", "hdf/src/vgp.c", "hdf/src/vsfld.c")):
+            continue
+        ast = f.raw.get("ast")
+        if not ast:
+            continue
+        if not any(x[0] == "asg" and (mem_field(x[2]) or (0, 0))[1] == "new_h_sz" for _b, _i, _s, x in f.nodes(True)):
+            continue
+        seq = seq_of(ast)
+        measures = []  # (index, local, field)
+        copies = []  # (index, field)
+        for i, (e, nd) in enumerate(seq):
+            for x in walk(e, True):
+                if x[0] == "asg" and x[1] == "=" and kind(strip(x[2])) == "var":
+                    r = strip(x[3])
+                    if kind(r) == "call" and r[1] in ("strlen", "strnlen") and r[3] and mem_field(r[3][0]):
+                        measures.append((i, strip(x[2])[1], mem_field(r[3][0]), nd))
+                elif x[0] == "call" and x[1] in COPY and x[3] and mem_field(x[3][0]):
+                    copies.append((i, mem_field(x[3][0])))
+        for i, loc, fld, nd in measures:
+            # only measurements that decide new_h_sz: the local is compared in a condition
+            used = any(kind(e2) and any(y[0] == "var" and y[1] == loc for y in walk(e2, True)) and n2[0] == "if" for e2, n2 in seq)
+            if not used:
+                continue
+            n += 1
+            key = "OLDLEN:%s:%s" % (f.name, fld[1])
+            early = [j for j, fl in copies if fl == fld and j < i]
+            if early:
+                ctx.violated("OLDLEN", key, f.where(node_line(nd)), "`%s` measures %s after the new string has been copied into it: it equals the new length, `new_h_sz` is never set for a longer string, and the longer header cannot be written at detach" % (loc, fld[1]))
+            else:
+                ctx.holds("OLDLEN", key, f.where(node_line(nd)), "the current length of %s is measured before the new string is copied over it" % fld[1], nontrivial=True)
+    ctx.floor("OLDLEN", 2, n, "(current-length measurements that decide new_h_sz)")
+    return n
